@@ -15,6 +15,11 @@ import (
 
 func init() { props["C03"] = runC03 }
 
+// c03RawIllFormedUTF8: the value under test holds JSON text from a marshaler / RawMessage that is itself
+// not valid UTF-8. Such text is passed through verbatim by encoding/json and, as C01 requires, by
+// go-json; UTF-8 normalisation applies to Go strings, so the UTF-8 clause is not judged on it.
+var c03RawIllFormedUTF8 bool
+
 func c03Check(c *Ctx, iv interface{}, t reflect.Type) {
 	in := fmt.Sprintf("%s = %s", genTypeString(t), c01Show(iv))
 	cls := c01ClassOf(iv, nil, nil, nil, nil)
@@ -52,7 +57,7 @@ func c03Check(c *Ctx, iv interface{}, t reflect.Type) {
 		if ok && gerr == nil {
 			if !stdjson.Valid(g) {
 				ok, why = false, "output is not one JSON text"
-			} else if !utf8.Valid(g) {
+			} else if !utf8.Valid(g) && !c03RawIllFormedUTF8 {
 				ok, why = false, "output is not valid UTF-8"
 			} else if bytes.IndexByte(bytes.TrimRight(g, "\n"), 0) >= 0 {
 				ok, why = false, "raw NUL in the output"
@@ -79,6 +84,42 @@ func runC03(c *Ctx) {
 	}
 	if !c.IsWorker() {
 		FieldMatrix(func(t reflect.Type, v reflect.Value) { c03Check(c, v.Interface(), t) })
+	}
+	if !c.IsWorker() {
+		// what a marshaler may hand back: every byte string up to length 3 over the C05 alphabet and every
+		// string literal with a body up to length 5 over the escape alphabet, as a RawMessage, as the
+		// result of MarshalJSON at the top level, and below a struct, a slice and a map
+		type holder struct {
+			A int
+			M GRawM
+			R stdjson.RawMessage `json:"r,omitempty"`
+		}
+		n := 0
+		try := func(b []byte) {
+			n++
+			txt := string(b)
+			c03RawIllFormedUTF8 = !utf8.Valid(b)
+			defer func() { c03RawIllFormedUTF8 = false }()
+			for _, iv := range []interface{}{
+				GRawM{B: txt}, json.RawMessage(txt), holder{A: 1, M: GRawM{B: txt}, R: stdjson.RawMessage("0")},
+				[]GRawM{{B: "1"}, {B: txt}}, map[string]GRawM{"k": {B: txt}},
+			} {
+				c03Check(c, iv, reflect.TypeOf(iv))
+			}
+		}
+		var rec func(p []byte)
+		rec = func(p []byte) {
+			try(p)
+			if len(p) == 3 {
+				return
+			}
+			for _, a := range c05Alphabet {
+				rec(append(p, a))
+			}
+		}
+		rec([]byte{})
+		strBodies(5, func(body []byte) { try(quoted(body)) })
+		c.Rep.Exhaustive = append(c.Rep.Exhaustive, fmt.Sprintf("%d marshaler results (all byte strings of length <= 3 over the 26-symbol alphabet, all string literals with a body of length <= 5 over the escape alphabet) in 5 positions x 8 entry points", n))
 	}
 	c.RunCases("values", ntypes, func(c *Ctx, k int, rng *rand.Rand) {
 		g := &Gen{R: rng}
